@@ -329,8 +329,8 @@ def well_shaped(tm, exp):
 
 
 class Rekey:
-    """cases that only differ from the others by the way the workspace is designated: whatever goes wrong there is
-    reported under one key"""
+    """cases that only differ from the others by the way the workspace is designated and that show the symptom (links
+    with a relative target): whatever goes wrong there is reported under one key"""
 
     def __init__(self, c, key):
         self.c, self.key = c, key
@@ -346,7 +346,10 @@ def finished(k, e, n):
 
 def oracle(c, case, ans):
     """The property restated over the implementation's observables (no model involved)."""
-    if any(op.endswith("-rel") for op in case["ops"]):
+    # the symptom of a relative workspace path: a link whose target is not a path of jobs/ (the relative path of the old
+    # directory, interpreted from the link's own directory); whatever fails in such a case is reported under one key
+    if any(op.endswith("-rel") for op in case["ops"]) and any(
+            "link" in e and len(e["link"]) != 2 for op in ans["ops"] for e in op["after"]):
         c = Rekey(c, "C20:relative-workspace-path")
     exp, moved = expected_recomp(case, ans)
     state = ans["before"]
